@@ -85,6 +85,8 @@ def c13_cases(rng, tier):
             cases.append(f"gopcode {g} {b}")
             for k in ((0, 1, 7, 8, 9) if tier == "quick" else range(0, 10)):
                 cases.append(f"gparse {g} " + hx(bytes([b]) + bytes((0xA0 + i) & 0xFF for i in range(k))))
+    # mapped bytecode: slices from every start index must decode to the ops they cover
+    cases += mapseq_cases(rng, rows, 60 if tier == "quick" else 2000)
     # all opcode pairs
     for a in rows:
         for b in rows:
@@ -140,25 +142,7 @@ def c14_cases(rng, tier):
             bs = bs[:i] + bytes([rng.choice([0, 0xFF, 0x0F, rng.randrange(256)])]) + bs[i:]
         cases.append(f"mapped {hx(bs)}")
         oracles.append(f"o_mapped {hx(bs)}")
-    # histories on one mapping: ops appended after the mapping has been read by index, listed, sliced
-    for _ in range(120 if tier == "quick" else 4000):
-        ops0 = rand_ops(rng, rows, rng.randrange(0, 5))
-        steps, n_ops = [], len(ops0)
-        for _ in range(rng.randrange(1, 9)):
-            r = rng.random()
-            if r < 0.35:
-                o = rand_ops(rng, rows, 1)
-                steps.append("p " + ops_toks(o).split(" ", 1)[1])
-                n_ops += 1
-            elif r < 0.65:
-                steps.append(f"g {rng.choice([0, n_ops - 1 if n_ops else 0, n_ops, n_ops + 1, rng.randrange(0, n_ops + 2)])}")
-            elif r < 0.8:
-                steps.append("a")
-            elif r < 0.92:
-                steps.append(f"f {rng.randrange(0, n_ops + 3)}")
-            else:
-                steps.append("b")
-        cases.append(f"mapseq {ops_toks(ops0)} {len(steps)} " + " ".join(steps))
+    cases += mapseq_cases(rng, rows, 120 if tier == "quick" else 4000)
     # execution through both access paths: jumps (incl. past the end), repeats, compute, state reads
     from . import gen_vm
     progs, _ = gen_vm.c09_cases(rng, tier)
@@ -181,6 +165,30 @@ def c14_cases(rng, tier):
             cases.append(c.replace("prog ops ", "prog bytes ", 1))
             oracles.append("o_both" + c[4:])
     return cases, oracles
+
+
+def mapseq_cases(rng, rows, n):
+    """histories on one mapping: ops appended after the mapping has been read by index, listed, sliced from every start"""
+    cases = []
+    for _ in range(n):
+        ops0 = rand_ops(rng, rows, rng.randrange(0, 5))
+        steps, n_ops = [], len(ops0)
+        for _ in range(rng.randrange(1, 9)):
+            r = rng.random()
+            if r < 0.35:
+                o = rand_ops(rng, rows, 1)
+                steps.append("p " + ops_toks(o).split(" ", 1)[1])
+                n_ops += 1
+            elif r < 0.65:
+                steps.append(f"g {rng.choice([0, n_ops - 1 if n_ops else 0, n_ops, n_ops + 1, rng.randrange(0, n_ops + 2)])}")
+            elif r < 0.8:
+                steps.append("a")
+            elif r < 0.92:
+                steps.append(f"f {rng.randrange(0, n_ops + 3)}")
+            else:
+                steps.append("b")
+        cases.append(f"mapseq {ops_toks(ops0)} {len(steps)} " + " ".join(steps))
+    return cases
 
 
 def c15_cases(rng, tier):
@@ -245,6 +253,21 @@ def c15_cases(rng, tier):
             body = [(push, 0)] * (total // 9) if fill_push else [(plain[0], 0)] * total
             ops = body + [(e, 0)]
             for E in (63, 1 << min(eff_ops.index(e), 5)):
+                bs = ops_bytes(ops)
+                cases.append(f"contains {E} {hx(bs)}")
+                oracles.append(f"o_contains {E} {hx(bs)}")
+    # a Push that straddles a block boundary of a block-wise scan (64 … 4096 bytes), its immediate made of Push opcodes
+    # (which would swallow the following real op) or of the queried effect opcode (which would be reported), after a
+    # stretch without any interesting byte
+    for B in (64, 128, 256, 512, 1024, 2048, 4096):
+        for off in range(B - 9, B + 1):
+            for kind in ("swallow", "phantom"):
+                if tier == "quick" and (off + (kind == "swallow")) % 2:
+                    continue
+                e = rng.choice(eff_ops)
+                imm = int.from_bytes(bytes([push["opcode"]] * 8 if kind == "swallow" else [e["opcode"]] * 8), "big", signed=True)
+                ops = [(plain[0], 0)] * off + [(push, imm)] + ([(e, 0)] if kind == "swallow" else []) + [(plain[1], 0)] * 12
+                E = 1 << min(eff_ops.index(e), 5)
                 bs = ops_bytes(ops)
                 cases.append(f"contains {E} {hx(bs)}")
                 oracles.append(f"o_contains {E} {hx(bs)}")
